@@ -91,28 +91,24 @@ def oracle(sumline, real_lines):
                 fails.append({"kind": "order", "id": wid, "t": t})
             if incs:
                 fails.append({"kind": "fired-in-critical-section", "id": wid, "t": t})
-    # lateness: a watchdog may fire later than due only by the time that passed inside calls (between the reading
-    # of the timer and its re-arming) during its life
+    # promptness (sampled, not a theorem).  In the fixed design the program's virtual clock can fall behind timer time
+    # only (i) between a reading of the timer (get_timer) and the re-arming (set_timer) that uses it, inside one call,
+    # (ii) between the entry of a watchdog's own constructor and its first timer call, (iii) by one reschedule period
+    # for every expiry delivered inside a critical section while it is pending or while it is being created during the
+    # retry period.  A handler must run no later than due + (i) + (ii) + (iii); with no time passing inside calls and no
+    # expiry inside a critical section that means exactly at its due time.
+    win, own = stale_windows(real_lines)
+    cs_fires = cs_fire_times(real_lines)
     for wid, e in F.items():
         if wid not in C:
             continue
         t = e[2]; t0 = C[wid][2]; due = t0 + C[wid][3] * CS
         slack = 0
-        for (a, b) in calls:
+        for (a, b) in win + ([own[wid]] if wid in own else []):
             lo, hi = max(a, t0), min(b, t)
             if hi > lo:
                 slack += hi - lo
-        # a call still under way when it fired (its end is not in `calls` yet): count up to t
-        for k2, c2 in C.items():
-            if k2 not in R or R[k2][3] > e[5]:
-                if C[k2][4] < e[5]:
-                    slack += max(0, t - max(C[k2][2], t0))
-        for k2, b2 in B.items():
-            if (k2 not in D or D[k2][3] > e[5]) and b2[3] < e[5]:
-                slack += max(0, t - max(b2[2], t0))
-        # ... and by one reschedule period for every expiry that hit a critical section and whose reschedule period
-        # overlaps its life
-        slack += RESCHEDULE_US * sum(1 for tf in cs_fire_times(real_lines) if t0 - RESCHEDULE_US <= tf <= t)
+        slack += RESCHEDULE_US * sum(1 for tf in cs_fires if t0 - RESCHEDULE_US <= tf <= t)
         if t > due + slack:
             fails.append({"kind": "late", "id": wid, "t": t, "due": due, "slack": slack, "seq": e[5]})
     # final state: whoever is alive and has not fired must still be pending with the timer armed
@@ -171,6 +167,38 @@ def cs_fire_times(real_lines):
         if m:
             out.append(int(m.group(2)))
     return out
+
+
+LINE_RE = re.compile(r"(\d+|F) (\S+) y=(\d+) .* cs=(\d) .* now=(\d+) calls=\[(.*?)\] fired=")
+
+
+def stale_windows(real_lines):
+    """(windows, own): windows = [(t_get, t_set)] for every getitimer followed by a setitimer issued by the same call
+    (not by the signal handler); own[id] = (constructor entry, its first timer call or its return)."""
+    win, own = [], {}
+    nid, cur_ctor, t_get, in_call = 0, None, None, False
+    for l in real_lines:
+        m = LINE_RE.match(l)
+        if not m:
+            continue
+        label, tok, y, now, calls = m.group(1), m.group(2), int(m.group(3)), int(m.group(5)), m.group(6).split()
+        if label != "F" and tok[0] == "c" and y == 1:
+            cur_ctor = nid; own[nid] = [now, None]; nid += 1; in_call = True; t_get = None
+        elif label != "F" and tok[0] == "d" and y != 0:
+            in_call = True; t_get = None; cur_ctor = None
+        if in_call and tok != "f":
+            for cl in calls:
+                if cur_ctor is not None and own[cur_ctor][1] is None:
+                    own[cur_ctor][1] = now
+                if cl[0] == "G":
+                    t_get = now
+                elif cl[0] in "SX" and t_get is not None:
+                    win.append((t_get, now)); t_get = None
+        if in_call and y == 0:
+            if cur_ctor is not None and own[cur_ctor][1] is None:
+                own[cur_ctor][1] = now
+            in_call = False; cur_ctor = None; t_get = None
+    return win, {k: (v[0], v[1] if v[1] is not None else v[0]) for k, v in own.items()}
 
 
 def cs_fire_seen(real_lines):
